@@ -435,6 +435,46 @@ static void pooled_objects(void) {
   OUT("pooled objects: %d made, sum %" PRId64 ", released so far %ld, slots in use %d, confused %ld", n, sum, pool_released, in_use, pool_confused);
 }
 
+/* ---------- owners left to the collector: an owner and what it owns become garbage together ----------
+** Box, heap Range / Slice / Zip and a user type whose destructor deletes its child (the documented convention).  With
+** the collector, the sweep may finalise the owned object before its owner, whose destructor then deletes it again:
+** that second deletion is a no-op.  Without the collector nothing is ever finalised.  The transcript shows the
+** values read and the number of children finalised more than once (0 in every build). */
+struct Kid { int64_t id; };
+static long kid_fin[4096]; static long kid_twice;
+static void Kid_New(var self, var args) { ((struct Kid*)self)->id = c_int(get(args, $I(0))); }
+static void Kid_Del(var self) { int64_t id = ((struct Kid*)self)->id; if (id >= 0 && id < 4096 && ++kid_fin[id] > 1) { kid_twice++; } }
+static var Kid = Cello(Kid, Instance(New, Kid_New, Kid_Del));
+struct Keeper { var kid; var spare; };
+static void Keeper_New(var self, var args) { struct Keeper* k = self; k->kid = new(Kid, get(args, $I(0))); k->spare = new(Int, get(args, $I(0))); }
+static void Keeper_Del(var self) { struct Keeper* k = self; del(k->kid); del(k->spare); }
+static var Keeper = Cello(Keeper, Instance(New, Keeper_New, Keeper_Del));
+static int64_t kid_serial;
+
+static void __attribute__((noinline)) drop_owners(int n, int64_t* total, int64_t* count) {
+  var arr = new(Array, Int);
+  for (int i = 0; i < 12; i++) { push(arr, $I(i * 3)); }
+  for (int i = 0; i < n; i++) {
+    var b = new(Box, new(Int, $I(i)));
+    *total += c_int(deref(b));
+    var k = new(Keeper, $I(kid_serial++ % 4096));
+    *total += c_int(((struct Keeper*)k)->spare) & 7;
+    if (i % 8 == 0) { foreach (x in new(Range, $I(5 + i % 7))) { *total += c_int(x); (*count)++; } }
+    if (i % 16 == 1) { foreach (x in new(Slice, arr, $I(1), $I(9), $I(2))) { *total += c_int(x); (*count)++; } }
+    if (i % 16 == 2) { foreach (p in new(Zip, arr, arr)) { *total += c_int(get(p, $I(0))); (*count)++; } }
+    b = NULL; k = NULL;
+  }
+  /* arr is left to the collector as well: the dropped Slices and Zips still point into it (an explicit del of an
+     object that garbage still refers to is outside the API's contract, DESIGN 10.3) */
+  arr = NULL;
+}
+static void owners_left_to_the_collector(void) {
+  int64_t total = 0, count = 0;
+  int n = 150 + (int)below(200);
+  drop_owners(n, &total, &count);
+  OUT("owners dropped: %d, values read %" PRId64 " in %" PRId64 " items, children finalised twice %ld", n, total, count, kid_twice);
+}
+
 static void files(const char* dir_tag) {
   char path[128]; snprintf(path, sizeof path, "c18-%s.tmp", dir_tag);
   var f = new(File, $S(path), $S("w+"));
@@ -462,7 +502,7 @@ int main(int argc, char** argv) {
   int rounds = 3 + (int)below(3);
   for (int i = 0; i < rounds; i++) {
     OUT("--- round %d", i);
-    sequences(); maps(); strings_and_formats(); exceptions(); values_and_types(); user_types(); embedded_strings(); thread_storage(); pooled_objects(); files(tag);
+    sequences(); maps(); strings_and_formats(); exceptions(); values_and_types(); user_types(); embedded_strings(); thread_storage(); pooled_objects(); owners_left_to_the_collector(); files(tag);
   }
   OUT("done");
   return 0;
